@@ -13,6 +13,18 @@ CRYPTO = ("cryptography idealised: ChaCha20-Poly1305 unforgeable AEAD binding ke
           "injective on protocol inputs, secp256k1 ECDH symmetric with distinct outputs for distinct pairs, scrypt injective")
 
 PROPS = {
+    "C01": {
+        "title": "GBN delivers every message exactly once, in order and intact",
+        "level": "proof",
+        "tests": [{"name": "TestC01"}],
+        "proofs": ["ModArith", "ProtoInv", "ProtoStep"],
+        "technique": "Lean 4 inductive invariant over an unbounded Go-Back-N transition system (C01_uni: receiver output is a prefix of accepted packets for every n in 1..254, every step sequence, every drop/dup/delay schedule), queue mirror tied to queue.go by exhaustive differential runs, protocol model tied to real GoBackNConn pairs by trace inclusion under synctest virtual time",
+        "text": "C01_uni is a kernel-checked theorem: from the initial state, after any finite sequence of new packets, retransmissions of any of the last n packets, and deliver/duplicate/drop steps on both FIFO channels, the packets handed to the receiving application are a prefix of the packets accepted by the sender, for every window 1<=n<=254. The model's queue/receiver arithmetic is the code's uint8 arithmetic (explicit wrap). The tie: (A) processACK/processNACK/size/containsSequence/addPacket compared with the real queue for all (s,base,top,seq), s<=8 (quick)/16 (thorough); (B) every event of real client/server GoBackNConn pairs run under enumerated and random fault schedules is replayed through the model's step function (must be enabled and produce the observed sequence numbers, payloads, ACK/NACK values), and the API-level prefix oracle is evaluated on the real Recv/Send results.",
+        "note": "Proved per direction (C01_uni); the two directions of a conversation are two instances of the system whose shared FIFO is projected onto its DATA and ACK/NACK sub-streams by the trace validator (projection lemma not yet mechanised). Assumes per-method atomicity of the queue (locks, C18) and that the send loop emits only what sendNew/retransmit allow (checked by trace inclusion, not proved). Transport is FIFO with drop/dup/delay; stale packets of other connections are out of scope of C01.",
+        "design_ref": "DESIGN.md section 3, C01",
+        "rule": "queue cases: all (s,base,top,seq) with base,top<s, seq in 0..255, s in 2..8 (quick)/2..16 (thorough); scenarios: every drop/dup/none pattern over the first 4 (quick)/6 (thorough) data-phase packets client->server combined with patterns over the first 2/3 server->client packets, n in {1,2,3}; plus seeded random schedules n in {1,2,5,20,127,254} with bursts that wrap the sequence space; distinct = distinct scenario / queue tuple; non-trivial = at least one packet dropped or duplicated (scenarios), non-empty window (queue)",
+        "assumptions": ["transport keeps per-direction order", "queue methods are atomic w.r.t. each other (C18)"],
+    },
     "C19": {
         "title": "Wire codecs round-trip for all field values",
         "level": "proof",
